@@ -210,6 +210,8 @@ async def random_session(rng: Rng, n_ops: int, profile: str, box: list | None = 
     if box is not None:
         box.append(s)
     await asyncio.sleep(rng.choice([0, 0.25, 0.9, 0.999]))      # position inside a clock second
+    if profile == "backlog":
+        return await backlog_session(rng, s)
     ncons = {"fifo": 1, "race": 2}.get(profile, rng.choice([1, 2, 3]))
     topics_pool = ["ta", "tb", "tc"]
     for c in range(ncons):
@@ -240,6 +242,30 @@ async def random_session(rng: Rng, n_ops: int, profile: str, box: list | None = 
             await s.maintenance()
     if profile in ("ttl", "mixed"):
         await drain_dead(s)
+    return s
+
+
+async def backlog_session(rng: Rng, s: Session) -> Session:
+    """C15: a consumer with a topic filter in front of backlogs shorter and longer than the fetch window (10), with runs of
+    foreign-topic names of every length around the window size at the consuming end"""
+    s.consumer(0, "NORMAL", ["ta"])
+    nid = 0
+    for _round in range(rng.randint(2, 4)):
+        for _ in range(rng.choice([8, 9, 10, 11, 12, 19, 20, 21, 22, 25])):
+            nid += 1
+            await s.enqueue(f"m{nid}", "tb", 5, "", {"ts": CLOCK.us})
+        for _ in range(rng.randint(1, 4)):
+            nid += 1
+            await s.enqueue(f"m{nid}", "ta", 5, "", {"ts": CLOCK.us})
+            if rng.random() < 0.4:
+                nid += 1
+                await s.enqueue(f"m{nid}", "tb", 5, "", {"ts": CLOCK.us})
+        for _ in range(rng.randint(1, 3)):
+            d = await s.consume(0, [9, 5, 0])
+            if d is not None and rng.random() < 0.5:
+                await s.terminal(rng.choice(["ack", "reject"]), d["id"])
+    for _ in range(6):
+        await s.consume(0, [9, 5, 0])
     return s
 
 
